@@ -108,6 +108,13 @@ class SumAggregator:
                     and elem.terms[0].symbol.type == SymbolType.Number
                     and elem.terms[0].symbol.number > 0
                 ):
+                    if not (
+                        elem.terms
+                        and elem.terms[0].ast_type == ASTType.SymbolicTerm
+                        and elem.terms[0].symbol.type == SymbolType.Number
+                        and elem.terms[0].symbol.number == 0
+                    ):
+                        return ret  # a negative or unknown weight of another element can lift the bound
                     alone = False
                     continue
             else:
@@ -181,6 +188,8 @@ class SumAggregator:
             if not is_predicate(lit):
                 continue
             symbol = lit.atom.symbol
+            if collect_ast(symbol, "Interval"):
+                continue  # would be expanded once per copy
             trigger_index = None
             for next_anon_pred in self._atmost_preds:
                 if not self.domain_predicates.has_domain(next_anon_pred.pred):
